@@ -52,8 +52,84 @@ func isAppend(v ssa.Value) (*ssa.Call, bool) {
 	if !ok {
 		return nil, false
 	}
-	b, ok := c.Call.Value.(*ssa.Builtin)
-	return c, ok && b.Name() == "append"
+	if b, ok := c.Call.Value.(*ssa.Builtin); ok {
+		return c, b.Name() == "append"
+	}
+	// an append-style helper of the module (dst = appendX(dst, …)) is an append onto its first operand
+	if f := staticCallee(&c.Call); f != nil && appendLike(f) {
+		return c, true
+	}
+	return c, false
+}
+
+// appendLike: a function of the module whose first parameter is a slice and whose only result is, on
+// every return, that parameter extended by appends (or re-sliced, or nil): the append-style idiom.
+// Its appends onto the parameter are judged at its call sites, where the call counts as an append.
+var appendLikeMemo = map[*ssa.Function]int{}
+
+func appendLike(f *ssa.Function) bool {
+	switch appendLikeMemo[f] {
+	case 1:
+		return true
+	case 2:
+		return false
+	}
+	appendLikeMemo[f] = 2
+	if f.Blocks == nil || f.Pkg == nil || !strings.HasPrefix(f.Pkg.Pkg.Path(), modPath) || f.Signature.Recv() != nil ||
+		len(f.Params) < 1 || f.Signature.Results().Len() != 1 {
+		return false
+	}
+	if _, ok := f.Params[0].Type().Underlying().(*types.Slice); !ok || !types.Identical(f.Params[0].Type(), f.Signature.Results().At(0).Type()) {
+		return false
+	}
+	seen := map[ssa.Value]bool{}
+	viaParam := false
+	var rooted func(v ssa.Value) bool
+	rooted = func(v ssa.Value) bool {
+		if seen[v] {
+			return true
+		}
+		seen[v] = true
+		switch x := v.(type) {
+		case *ssa.Parameter:
+			if x == f.Params[0] {
+				viaParam = true
+				return true
+			}
+			return false
+		case *ssa.Const:
+			return x.Value == nil
+		case *ssa.Phi:
+			for _, e := range x.Edges {
+				if !rooted(e) {
+					return false
+				}
+			}
+			return true
+		case *ssa.Slice:
+			return rooted(x.X)
+		case *ssa.Call:
+			if c, ok := isAppend(x); ok {
+				return rooted(c.Call.Args[0])
+			}
+		}
+		return false
+	}
+	ok := true
+	nret := 0
+	instrs(f, func(in ssa.Instruction) {
+		if r, isR := in.(*ssa.Return); isR {
+			nret++
+			if len(r.Results) != 1 || !rooted(r.Results[0]) {
+				ok = false
+			}
+		}
+	})
+	if ok && viaParam && nret > 0 {
+		appendLikeMemo[f] = 1
+		return true
+	}
+	return false
 }
 
 // sources classifies where a slice value comes from (following φ and slicing).
@@ -405,6 +481,18 @@ func (a *AliasAudit) Audit(pkgs []string) []aliasFinding {
 				}
 				src := map[baseKind][]ssa.Value{}
 				a.sources(base, map[ssa.Value]bool{}, src)
+				if appendLike(f) && len(src[baseForeign]) > 0 {
+					only := true
+					for _, fb := range src[baseForeign] {
+						if fb != ssa.Value(f.Params[0]) {
+							only = false
+						}
+					}
+					if only {
+						a.Owned = append(a.Owned, fnName(f)+": "+Expr(c)+" (append-style helper: the append onto its first parameter is judged at every call site)")
+						return
+					}
+				}
 				if len(src[baseForeign]) > 0 {
 					out = append(out, aliasFinding{Fn: f, Call: c, Shape: "foreign", Base: Expr(src[baseForeign][0]),
 						Detail: fmt.Sprintf("append onto %s, which this function does not own (result %s); with spare capacity the stored object's backing array is overwritten/shared", Expr(src[baseForeign][0]), why)})
